@@ -318,6 +318,9 @@ func genC07(r *R, n int, tier string, out *Out) {
 		if r.chance(0.04) {
 			return math.NaN()
 		}
+		if r.chance(0.04) {
+			return pickOf(r, []float64{math.Inf(1), math.Inf(-1)}) // (infinities are not NaN: Equals is reflexive on them)
+		}
 		return r.finiteFloat()
 	}
 	big := r.bigTrees(o)
@@ -785,7 +788,8 @@ func genC14(r *R, n int, tier string, out *Out) {
 // ---------- C17 ----------
 
 func genC17(r *R, n int, tier string, out *Out) {
-	strPool := []string{"", "a", "b", "ab", "abc", "abd", "a\x00", "é", "z", "Z", "zz", "\xf0\x9f\x98\x80", "~", " ", "aa", "B"}
+	strPool := []string{"", "a", "b", "ab", "abc", "abd", "a\x00", "é", "z", "Z", "zz", "\xf0\x9f\x98\x80", "~", " ", "aa", "B",
+		"\xff", "\xfe", "b\xc0", "\xef\xbf\xbd", "\xed\xa0\x80", "a\xff", "a\xfe"} // (Go strings are byte strings: "bytewise" includes ill-formed UTF-8)
 	for i := 0; i < n; i++ {
 		mode := r.Intn(8)
 		ln := 1 + r.Intn(9)
